@@ -350,7 +350,12 @@ fn gen_scn(rng: &mut Rng, _tier: Tier) -> ByteScn {
             6..=8 => rng.usize_in(13, 40),
             _ => {
                 if rng.chance(1, 6) {
-                    *rng.pick(&[64usize, 100, 255, 256, 300])
+                    if rng.chance(1, 8) {
+                        // long lists (caps, chunked paths, index types): fault positions sampled, see `LONG_INPUT`
+                        *rng.pick(&[513usize, 600, 1025, 1100, 1536, 2000, 4000])
+                    } else {
+                        *rng.pick(&[64usize, 100, 255, 256, 300])
+                    }
                 } else {
                     rng.usize_in(13, 40)
                 }
@@ -438,28 +443,51 @@ fn gen_scn(rng: &mut Rng, _tier: Tier) -> ByteScn {
     ByteScn { kind, take_rest, bytes, header_len, moves }
 }
 
-/// sub = 0: base; 1..=len: truncation to sub-1 bytes; then single-bit flips in the header.
+/// Inputs longer than this are "long": their fault positions are sampled, not enumerated.
+const LONG_INPUT: usize = 3000;
+
+/// Truncation offsets to try: every offset, or for long inputs the first and last 40 and 200 evenly spaced.
+fn trunc_offsets(len: usize) -> Vec<usize> {
+    if len <= LONG_INPUT {
+        return (0..len).collect();
+    }
+    let mut v: Vec<usize> = (0..40).chain(len - 40..len).collect();
+    v.extend((1..200).map(|k| k * len / 200));
+    v.sort_unstable();
+    v.dedup();
+    v
+}
+
+/// Header bytes whose bits are flipped: all of them, or for long inputs the first and last 27 (3 records).
+fn flip_bytes(header: usize) -> Vec<usize> {
+    if header <= LONG_INPUT {
+        return (0..header).collect();
+    }
+    (0..27).chain(header - 27..header).collect()
+}
+
+/// sub = 0: base; then truncations; then single-bit flips in the header.
 fn variant(base: &ByteScn, sub: u64) -> ByteScn {
     if sub == 0 {
         return base.clone();
     }
-    let len = base.bytes.len() as u64;
+    let tr = trunc_offsets(base.bytes.len());
     let mut s = base.clone();
-    if sub <= len {
-        s.bytes.truncate((sub - 1) as usize);
+    if (sub as usize) <= tr.len() {
+        s.bytes.truncate(tr[sub as usize - 1]);
         s.header_len = s.header_len.min(s.bytes.len());
         return s;
     }
-    let bit = sub - len - 1;
-    let byte = (bit / 8) as usize;
-    if byte < s.bytes.len() {
+    let fb = flip_bytes(base.header_len.min(base.bytes.len()));
+    let bit = sub as usize - tr.len() - 1;
+    if let Some(&byte) = fb.get(bit / 8) {
         s.bytes[byte] ^= 1 << (bit % 8);
     }
     s
 }
 
 fn variant_count(base: &ByteScn) -> u64 {
-    1 + base.bytes.len() as u64 + 8 * base.header_len.min(base.bytes.len()) as u64
+    1 + trunc_offsets(base.bytes.len()).len() as u64 + 8 * flip_bytes(base.header_len.min(base.bytes.len())).len() as u64
 }
 
 fn shrink(scn: &ByteScn) -> Vec<ByteScn> {
@@ -589,9 +617,12 @@ impl World for C19 {
             let scn = variant(base, sub);
             if sub == 0 {
                 cov.hit("base_strings");
-            } else if sub <= base.bytes.len() as u64 {
+                if base.bytes.len() > LONG_INPUT {
+                    cov.hit("long_inputs");
+                }
+            } else if (sub as usize) <= trunc_offsets(base.bytes.len()).len() {
                 cov.hit("fault_eof_at_offset");
-                let cut = (sub - 1) as usize;
+                let cut = scn.bytes.len();
                 if cut < base.header_len && cut % 9 != 0 {
                     cov.hit("probe_eof_inside_an_end");
                 }
@@ -672,7 +703,7 @@ impl World for C19 {
         })
     }
     fn extra_coverage(&self, cov: &Cov, out: &mut Map<String, Value>) {
-        out.insert("fault_positions_enumerated_exhaustively_per_base".into(), json!(true));
+        out.insert("fault_positions_enumerated_exhaustively_per_base".into(), json!(format!("yes for inputs of up to {LONG_INPUT} bytes; longer inputs (counters.long_inputs): first/last 40 and 200 evenly spaced EOF offsets, bit flips in the first and last 27 header bytes")));
         let g = |k: &str| cov.counters.get(k).copied().unwrap_or(0);
         out.insert("decodes_executed".into(), json!(g("decode_ok") + g("decode_err")));
     }
